@@ -44,6 +44,7 @@ type Replay struct {
 	Chain   ChainSpec `json:"chain"`
 	History []Item    `json:"history"`
 	DA      *DAScenario `json:"da,omitempty"` // a DA-ingress scenario instead of an event history
+	P2P     *P2PScenario `json:"p2p,omitempty"` // a P2P-ingress scenario instead of an event history
 }
 
 func TxBytes(id int) []byte { return []byte(fmt.Sprintf("tx-%05d", id)) }
